@@ -82,7 +82,7 @@ Definition next_ad (rc : rcfg) (ad : bool) : bool := if r_delta rc then false el
 (** The measurements of instrument [i] grouped by the deliveries of reader [r].
     [lossy = false]: the property's reading - a collection whose delivery was skipped loses
     nothing, its measurements belong to the next delivery.
-    [lossy = true]: the behaviour recorded as finding F-C02-1 - a skipped delivery of a delta
+    [lossy = true]: the operational reading (what finding F-C02-1 was about) - a skipped delivery of a delta
     reader swallows the measurements collected for it. *)
 Fixpoint cycles (lossy : bool) (rc : rcfg) (r : nat) (i : inst) (h : list op) (down err ad : bool)
          (cur : list (skey * Z)) : list (list (skey * Z)) :=
@@ -230,24 +230,6 @@ Definition stream_ok (lossy : bool) (rc : rcfg) (r : nat) (i : inst) (h : list o
   let cyc := cycles lossy rc r i h false false false [] in
   (if r_delta rc then delta_exactb cyc outs else cum_totalb [] cyc outs) &&
   (lossy || final_ok rc r i h outs).
-
-(** does the history contain the shape of finding F-C02-1 for this stream: a periodic delta
-    reader skips a delivery (callback error) while measurements are waiting *)
-Fixpoint drops_pending (rc : rcfg) (r : nat) (i : inst) (h : list op) (down err ad : bool) (cur : list (skey * Z)) : bool :=
-  match h with
-  | [] => false
-  | Add i' k v :: t => drops_pending rc r i t down err true (if Nat.eqb i' i then cur ++ [(k, v)] else cur)
-  | SetErr b :: t => drops_pending rc r i t down b ad cur
-  | o :: t =>
-      match attempt rc r down err ad o with
-      | (CNone, down', _) => drops_pending rc r i t down' err ad cur
-      | (CDelivered, down', _) => drops_pending rc r i t down' err (next_ad rc ad) []
-      | (CDropped, down', _) =>
-          (r_delta rc && match rk rc with RPeriodic => true | RManual => false end &&
-           match cur with [] => false | _ => true end)
-          || drops_pending rc r i t down' err (next_ad rc ad) (if r_delta rc then [] else cur)
-      end
-  end.
 
 (** ** Completed concurrent histories: many goroutines added known totals while collections
     ran; the last delivery of every reader was made after all of them had returned.
